@@ -5,7 +5,7 @@ From Coq Require Import String.
 From Coq Require Import List NArith Bool.
 Import ListNotations.
 From Snaps Require Import Base.Bytes Base.Lines Base.Dec Base.Assoc.
-From Snaps Require Import Model.Frame Model.PathModel Model.Mode.
+From Snaps Require Import Model.Frame Model.PathModel Model.Mode Model.Report.
 
 Inductive api := ASnap | AJson | AYaml | AStand | AStandJson.
 
@@ -128,9 +128,12 @@ Definition bump (oc : outcome) (c : counters) : counters :=
   end.
 
 (* ---------- the decision "report is empty" ----------
-   prettyDiff returns "" iff the two texts are byte-identical (C13, proved for the
-   difflib/report model in Properties/C13.v; tied to the code by the Diff ops). *)
-Definition diff_empty (a b : bytes) : bool := beq a b.
+   A call passes iff prettyDiff returns "". The model computes the real (NO_COLOR) report
+   with the difflib/report model; Proofs/DiffDecisionP.v shows this is byte equality.
+   With colours on the code takes the inline path first and falls back to the same line
+   diff when that sees no change, so the decision is the same (tied by the diff ops). *)
+Definition diff_empty (a b : bytes) : bool :=
+  match pretty_diff_nocolor a b [] 0 with [] => true | _ => false end.
 
 (* ---------- state updates ---------- *)
 
